@@ -337,7 +337,7 @@ Section RT.
     assert (EF : exists frs, flat_map frags (RawText (c0 :: pre) :: inl_tok x :: EmphSentence.raw_if post) =
                  Fw (c0 :: pre) :: frs ++ match post with [] => [] | _ => [Fw post] end /\
                  Forall (fun f => mem 10 (ftext f) = false) frs /\ concat (map ftext frs) = inl_text x).
-    { destruct x as [w|c|w d|ch k h ps z|w d tl|u0 usc ur]; cbn [inl_tok inl_text] in *.
+    { destruct x as [w|c|w d|ch k h ps z|w d q tl|u0 usc ur]; cbn [inl_tok inl_text] in *.
       - exists [F $"~~"; Fw w; F $"~~"]. split; [destruct post; reflexivity|]. split; [|reflexivity].
         unfold mem in N10. rewrite !existsb_app in N10. apply orb_false_iff in N10 as [_ N10]. apply orb_false_iff in N10 as [N10 _].
         repeat constructor; cbn [ftext F Fw]; try reflexivity. exact N10.
@@ -357,12 +357,17 @@ Section RT.
         + unfold nest_of. destruct K2 as [->| ->]; [change (Z.of_nat 1 =? 2) with false|change (Z.of_nat 2 =? 2) with true]; cbv iota; destruct post; cbn [flat_map frags app repeat EmphSentence.raw_if]; rewrite ?app_nil_r, <- ?app_assoc; reflexivity.
         + apply Forall_app. split; [repeat constructor; exact R10|]. apply Forall_app. split; [exact HF|repeat constructor; exact R10].
         + rewrite !map_app, !concat_app, E. cbn [map concat ftext F]. rewrite !app_nil_r. reflexivity.
-      - cbn [inl_ok] in Hok. apply andb_true_iff in Hok as [_ Hne]. destruct tl as [|t0 tl']; [discriminate|].
-        exists [F $"["; Fw w; F $"]"; F $"("; F d; Fw [32]; F [34]; Fw (t0 :: tl'); F [34]; F $")"]. split; [destruct post; reflexivity|]. split; [|cbn [map concat ftext F Fw app]; rewrite ?app_nil_r; repeat (rewrite <- ?app_assoc; cbn [app]); reflexivity].
+      - cbn [inl_ok] in Hok. apply andb_true_iff in Hok as [Hok' Hne]. destruct tl as [|t0 tl']; [discriminate|].
+        assert (Hqq : q = 34 \/ q = 39 \/ q = 40).
+        { unfold tlink_ok in Hok'. repeat rewrite andb_true_iff in Hok'. destruct Hok' as [[[[_ _] Hdl] _] _].
+          unfold delim_ok in Hdl. repeat (apply orb_true_iff in Hdl; destruct Hdl as [Hdl|Hdl]); apply Z.eqb_eq in Hdl; tauto. }
+        exists [F $"["; Fw w; F $"]"; F $"("; F d; Fw [32]; F [q]; Fw (t0 :: tl'); F [title_closer q]; F $")"]. split; [destruct Hqq as [->|[->| ->]]; destruct post; reflexivity|]. split; [|cbn [map concat ftext F Fw app]; rewrite ?app_nil_r; repeat (rewrite <- ?app_assoc; cbn [app]); reflexivity].
         unfold mem in N10. cbn [app existsb] in N10. rewrite !existsb_app in N10. cbn [existsb] in N10. rewrite !existsb_app in N10. cbn [existsb] in N10.
         repeat (apply orb_false_iff in N10; destruct N10 as [? N10]).
         repeat constructor; cbn [ftext F Fw]; try reflexivity; try assumption.
-        unfold mem. cbn [existsb]. rewrite existsb_app in N10. apply orb_false_iff in N10 as [N10 _]. rewrite H6, N10. reflexivity.
+        + unfold mem. cbn [existsb]. rewrite orb_false_r. assumption.
+        + unfold mem. cbn [existsb]. rewrite existsb_app in N10. apply orb_false_iff in N10 as [N10 _]. rewrite N10, orb_false_r. assumption.
+        + destruct Hqq as [->|[->| ->]]; reflexivity.
       - exists [F ($"<" ++ (u0 :: usc ++ 58 :: ur) ++ $">")]. split; [destruct post; reflexivity|]. split; [|cbn [map concat ftext F app]; rewrite ?app_nil_r; reflexivity].
         repeat constructor. cbn [ftext F]. exact N10. }
     destruct EF as (frs & -> & Hf & Ec).
